@@ -6,7 +6,7 @@
    facts_fixed are the call-site facts of the repaired FileProxy.flush (DESIGN D13). *)
 From RichModel Require Import Prelude Color Style AnsiDecode FileProxy SpecDecode.
 From RichGen Require AnsiRegex SgrMap FileProxyFacts.
-From RichProofs Require Import AnsiDecodeP FileProxyP AnsiDecodeP2 AnsiDecodeP3 AnsiDecodeP4 AnsiDecodeP5 AnsiDecodeP6 AnsiDecodeP7.
+From RichProofs Require Import AnsiDecodeP FileProxyP AnsiDecodeP2 AnsiDecodeP3 AnsiDecodeP4 AnsiDecodeP5 AnsiDecodeP6 AnsiDecodeP7 FileProxyP2.
 
 (* ---- ties to /repo: the scanners were written for exactly these patterns; the call sites of
    console.print in FileProxy.write / flush are the repaired ones (this one fails on rich 9.10.0 as
@@ -173,6 +173,35 @@ Example C19_proxy_cut_nonvacuous :   (* a line cut inside its escape sequence is
   snd (proxy_run true facts_fixed p_init h2) <> [] /\
   concat (snd (spec_run s_init h1)) = concat (snd (spec_run s_init h2)).
 Proof. vm_compute. repeat split; try reflexivity. discriminate. Qed.
+
+(* restart histories: start() / writes / stop() repeated any number of times on ONE Live, Status (wraps a
+   Live) or Progress object.  T3 facts regenerated from rich/live.py and rich/progress.py: for stdout and
+   stderr, (the enabling test also requires `self._restore_X is None`, disabling resets it to None).
+   As long as no stream has the guard without the reset, EVERY run redirects the stream to a fresh
+   FileProxy, prints every line of that run exactly once (proxy_ok_b + conservation, per run) and
+   restores the original stream at stop() *)
+Definition redirect_facts_ok (l : list (bool * bool)) : Prop :=
+  length l = 2%nat /\ Forall (fun p => rf_ok (mkRF (fst p) (snd p))) l.
+Theorem C19_redirect_facts :
+  redirect_facts_ok FileProxyFacts.LIVE_REDIRECT /\ redirect_facts_ok FileProxyFacts.PROGRESS_REDIRECT.
+Proof. split; (split; [reflexivity|repeat constructor]). Qed.
+Print Assumptions C19_redirect_facts.
+
+Theorem C19_restart_histories : forall rf hs, rf_ok rf ->
+  Forall2 run_ok_obs hs (restart_runs true facts_fixed rf r_init hs).
+Proof. intros rf hs H. exact (restart_ok rf H hs r_init (between_init rf)). Qed.
+Print Assumptions C19_restart_histories.
+
+(* the seeded pair of edits (None-guard in enable, no reset in disable): the second run is not redirected *)
+Theorem C19_restart_guard_without_reset_refuted :
+  let hs := [[Write [97; 10]]; [Write [98; 10]]] in
+  match restart_runs true facts_fixed (mkRF true false) r_init hs with
+  | [r1; r2] => ro_proxy r1 = true /\ ro_proxy r2 = false
+                /\ proxy_ok_b [Write [98; 10]] (ro_outs r2) (ro_pending r2) = false
+  | _ => False
+  end.
+Proof. exact restart_guard_without_reset_refuted. Qed.
+Print Assumptions C19_restart_guard_without_reset_refuted.
 
 (* scope: an unterminated tail that is never flushed stays in the proxy's buffer -- the property gives
    complete lines to write() and the partial line to flush(); Live.stop() restores sys.stdout without
